@@ -104,6 +104,36 @@ func c12Lattice(r *engine.Run) {
 	if done {
 		r.Bound(fmt.Sprintf("lattice geometry envelopes: all %d simple polygons and %d paths (≤3 vertices) on 3×3 × %d affine maps", len(polys), len(paths), len(c12Transforms)))
 	}
+	// every vertex sequence of 4 (thorough: 5) lattice points as a LineString, closed or not, with
+	// repeats: the envelope and its invariance under Reverse / ForceCoordinatesType (whose added Z/M
+	// are zeros, i.e. equal to some of the X/Y values) must not depend on how the sequence ends
+	{
+		pts := universe.LatticePoints(3)
+		maxN := 4
+		if r.Thorough() {
+			maxN = 5
+		}
+		var seqs [][]universe.LPt
+		for n := 4; n <= maxN; n++ {
+			allSeqs(pts, n, func(sq []universe.LPt) {
+				distinct := false
+				for _, p := range sq {
+					distinct = distinct || p != sq[0]
+				}
+				if distinct {
+					seqs = append(seqs, append([]universe.LPt{}, sq...))
+				}
+			})
+		}
+		id := universe.Identity
+		r.States.Add(int64(len(seqs)))
+		if r.Parallel(len(seqs), func(i int) {
+			g := id.Line(seqs[i]).AsGeometry()
+			c12Geom(r, g, envOfLattice(id, seqs[i]), c12GeomCase{Shape: "vertex sequence", Sup: "identity", WKT: g.AsText()})
+		}) {
+			r.Bound(fmt.Sprintf("every vertex sequence of 4..%d points of 3×3 as a LineString (%d): envelope and its invariants", maxN, len(seqs)))
+		}
+	}
 	// Union envelopes: all ordered pairs over {points, segments, polygons with ≤4 vertices (thorough: ≤5)}
 	var ops []geom.Geometry
 	id := universe.Identity
